@@ -22,7 +22,25 @@ from core.wire import atom, line, parse_reply, Atom
 
 ID = "C40"
 LEAN_TARGETS = ["TornadoModel.C40.Props"]
-THEOREMS = []
+THEOREMS = [
+    "TornadoModel.C40.invTok_step",
+    "TornadoModel.C40.invWake_step",
+    "TornadoModel.C40.invClose_step",
+    "TornadoModel.C40.inv_reach",
+    "TornadoModel.C40.token_unique",
+    "TornadoModel.C40.assert_never_fails",
+    "TornadoModel.C40.post_finds_args_empty",
+    "TornadoModel.C40.at_most_one_select",
+    "TornadoModel.C40.wake_invariant",
+    "TornadoModel.C40.waker_always_captured",
+    "TornadoModel.C40.stale_select_returns",
+    "TornadoModel.C40.callbacks_on_loop_thread",
+    "TornadoModel.C40.close_progress",
+    "TornadoModel.C40.close_rank_decreases",
+    "TornadoModel.C40.join_returns",
+    "TornadoModel.C40.close_can_wake",
+    "TornadoModel.C40.selected_reports_ready",
+]
 TRUSTED = [
     "atomicity: steps of the model are atomic because the code holds _select_cond there or uses one thread-safe primitive (socket send/recv, select returning, call_soon_threadsafe) — GIL / threading.Condition / asyncio contracts",
     "the harness shims for Condition, Thread, select and the waker socket implement those contracts (deterministic scheduler, one thread runs at a time)",
@@ -36,7 +54,15 @@ RULE = ("scripts of loop-thread actions (add/remove reader/writer, make fd ready
         "consume / unregister / register, close) x seeded schedules over the yield points of both threads; "
         "non-trivial = at least one user fd dispatched or a registration changed while a select was in progress")
 EXHAUSTIVE = {"quick": False, "thorough": False}
-CLAUSES = {}
+CLAUSES = {
+    "at most one select call is in progress": "token_unique, at_most_one_select, assert_never_fails, post_finds_args_empty",
+    "every readiness of an fd that stays registered is eventually dispatched on the event-loop thread":
+        "safety half proved: wake_invariant, waker_always_captured, stale_select_returns, selected_reports_ready; "
+        "liveness (no_lost_event_goal) tie only: settle-phase oracle Spec.lost on every execution",
+    "callbacks never run on the selector thread": "callbacks_on_loop_thread (structural) + thread identity observed in every execution",
+    "close always returns with the selector thread stopped": "close_can_wake, close_progress, close_rank_decreases, join_returns",
+    "real executions are executions of the model": "tie only: every recorded execution is accepted by Model.step and ends in the model's final state",
+}
 PARALLEL = False
 CASE_TIMEOUT = 120
 LEVEL_NOTE = "OS scheduler and real select(2) errors are outside the model; liveness (no_lost_event) is tie-only"
